@@ -47,6 +47,162 @@ def seek_ok_propagated(prog, body, blk):
     return enum_arm_target(si, 'Continue'), enum_arm_target(si, 'Break'), br[0].term.target
 
 
+
+def r10_2(prog, rep, RULE='R10.2', adts=None):
+    # ---------------- R10.2 seek(Start) rewrites position state
+    def start_arm(body):
+        for sbb, si in arm_of_enum_switch(prog, body, adt='std::io::SeekFrom'):
+            t = enum_arm_target(si, 'Start')
+            if t is not None and si['place'][0] == 2:
+                return sbb, t, si
+        return None
+    for adt, spec in FROZEN_FIELDS.items():
+        if adts is not None and adt not in adts:
+            continue
+        a = prog.adt(adt, 'mla')
+        if a is None:
+            rep.ob(RULE, False, RULE + '|anchor|%s' % adt, 'struct not found')
+            continue
+        fields = {f['name'] for f in a['variants'][0]['fields']}
+        known = spec['position'] | set(spec['other'])
+        for f in sorted(fields - known):
+            rep.note('new field %s.%s: not classified as position-dependent or not (R10.2 field lists are frozen)' % (adt, f))
+        missing = known - fields
+        rep.ob(RULE, not missing, RULE + '|%s|field-list' % adt, 'field list matches (%s position-dependent)' % sorted(spec['position']) if not missing else 'fields %s no longer exist: re-review the list' % sorted(missing), '-')
+        body = one_body(prog, rep, RULE, 'mla', adt=adt, name='seek', trait='std::io::Seek')
+        if body is None:
+            continue
+        from ..inline import inlined_body
+        if start_arm(body) is not None:
+            plain_arm = start_arm(body)
+            # the Start arm may delegate to a private method (`SeekFrom::Start(pos) => self.seek_from_start(pos)`): examine it with that method spliced in
+            arm_calls = [b for b in body.calls() if body.edge_dominates((plain_arm[0], plain_arm[1]), b.idx)]
+            if not any(s.kind == 'assign' and s.place == (0, ()) and s.rv.r == 'aggregate' and s.rv.j.get('variant') == 'Ok'
+                       for b in body.blocks if body.edge_dominates((plain_arm[0], plain_arm[1]), b.idx) for s in b.stmts):
+                body = inlined_body(prog, body, depth=1, skip=('load_in_cache', 'sync_inner_with_uncompressed_pos', 'new_decompressor_at'))
+        sa = start_arm(body)
+        if sa is None:
+            rep.ob(RULE, False, RULE + '|%s|start-arm' % body.nkey, 'no SeekFrom::Start arm found', body.loc())
+            continue
+        sbb, tgt, si = sa
+        arm_blocks = {b for b in body.reachable(tgt) if body.edge_dominates((sbb, tgt), b)}
+        # (after splicing a helper in, its result local is copied into _0)
+        ret_copies = {s.rv.ops[0].place[0] for b in body.blocks if b.idx in arm_blocks for s in b.stmts
+                      if s.kind == 'assign' and s.place == (0, ()) and s.rv.r == 'use' and s.rv.ops[0].place is not None and not s.rv.ops[0].place[1]}
+        oks = [(b.idx, i) for b in body.blocks if b.idx in arm_blocks and not b.cleanup for i, s in enumerate(b.stmts)
+               if s.kind == 'assign' and (s.place == (0, ()) or (not s.place[1] and s.place[0] in ret_copies)) and s.rv.r == 'aggregate' and s.rv.j.get('variant') == 'Ok']
+        rep.floor(RULE + '.%s' % adt.rsplit('::', 1)[-1], len(oks), 1, 'Ok results of the Start arm')
+        written = collections.defaultdict(list)   # field -> blocks
+        # locals that are `self` (the parameter, copies and reborrows of it -- a spliced-in method has its own)
+        # greatest fixpoint over the locals of self's type: kept while every definition copies / reborrows another kept local
+        selfs = {1} | {l_ for l_ in body.defs if body.lty(l_) == body.lty(1)}
+        shrunk = True
+        while shrunk:
+            shrunk = False
+            for l_ in sorted(selfs - {1}):
+                for d_ in body.defs.get(l_, []):
+                    src_ = None
+                    if d_[2] == 'assign' and d_[3].place[1]:
+                        continue      # a store through the reference, not a redefinition of it
+                    if d_[2] == 'assign' and not d_[3].place[1]:
+                        rv_ = d_[3].rv
+                        if rv_.r == 'use' and rv_.ops[0].place is not None and not rv_.ops[0].place[1]:
+                            src_ = rv_.ops[0].place[0]
+                        elif rv_.r == 'ref' and rv_.place is not None and rv_.place[1] == (('deref',),):
+                            src_ = rv_.place[0]
+                    if src_ not in selfs:
+                        selfs.discard(l_)
+                        shrunk = True
+                        break
+        for b in body.blocks:
+            if b.idx not in arm_blocks or b.cleanup:
+                continue
+            for i, s in enumerate(b.stmts):
+                if s.kind == 'assign' and s.place[0] in selfs and place_fields(s.place):
+                    written[place_fields(s.place)[0]].append(b.idx)
+            t = b.term
+            if t.kind == 'call':
+                for a_, aty in zip(t.args, t.arg_tys):
+                    if a_.place is None or '&mut' not in aty:
+                        continue
+                    e = expr_of(body, a_)
+                    if e[0] == 'ref' and e[1][0] in selfs and place_fields(e[1]):
+                        written[place_fields(e[1])[0]].append(b.idx)
+                    elif a_.place[0] in selfs or (e[0] == 'ref' and e[1][0] in selfs and not place_fields(e[1])):
+                        # &mut self handed to a method: rewrites what that method assigns
+                        cands, _ = resolve_call(prog, body, t)
+                        for c in cands:
+                            for cb in c.blocks:
+                                for s2 in cb.stmts:
+                                    if s2.kind == 'assign' and s2.place[0] == 1 and place_fields(s2.place):
+                                        written[place_fields(s2.place)[0]].append(b.idx)
+                                if cb.term.kind == 'call':
+                                    for a3, aty3 in zip(cb.term.args, cb.term.arg_tys):
+                                        e3 = expr_of(c, a3) if a3.place is not None else ('?',)
+                                        if '&mut' in aty3 and e3[0] == 'ref' and e3[1][0] == 1 and place_fields(e3[1]):
+                                            written[place_fields(e3[1])[0]].append(b.idx)
+        def fast_path_ok(obb):
+            """an Ok result that skips the rewrite is tolerated only on a path that established (i) equality between a value computed from the
+            requested position and a position field of self, and (ii) a second test on another position field (validity of the cached state)"""
+            ident = False
+            valid = False
+            for (e, taken, d) in census.guards_on_path(prog, body, obb):
+                neg = False
+                while e[0] == 'not':
+                    e = e[1]
+                    neg = not neg
+                if e[0] != 'binop' or e[1] not in ('Eq', 'Ne') or d not in arm_blocks:
+                    continue
+                holds_eq = (e[1] == 'Eq') == (taken != neg)
+                sides = []
+                for x in (e[2], e[3]):
+                    fl = None
+                    while x[0] == 'cast':
+                        x = x[1]
+                    if x[0] == 'place' and x[1][0] == 1 and place_fields(x[1]):
+                        fl = place_fields(x[1])[0]
+                    elif x[0] == 'call' and x[2].args and x[2].args[0].place is not None:
+                        oo = origins(body, [x[2].args[0].place[0]], through_calls=True)
+                        fs = [ff[1] for ff in oo.fields if ff[0] == 'self' and len(ff) > 1]
+                        fl = fs[0] if fs else None
+                    sides.append(fl)
+                fields_here = [x for x in sides if x in spec['position']]
+                if not fields_here:
+                    continue
+                def _uc(x):
+                    while x[0] == 'cast':
+                        x = x[1]
+                    return x
+                other = [_uc(x) for x, fl in zip((e[2], e[3]), sides) if fl not in spec['position']]
+                if holds_eq and other and other[0][0] != 'const':
+                    ident = ident or fields_here[0]
+                elif (not holds_eq) and other and other[0][0] == 'const':
+                    valid = valid or fields_here[0]
+            return bool(ident) and bool(valid) and ident != valid
+        for f in sorted(spec['position']):
+            okw = all(any(body.dominates(wb, obb) for wb in written.get(f, [])) or fast_path_ok(obb) for obb, _ in oks) and bool(oks)
+            rep.ob(RULE, okw, RULE + '|%s|Start-rewrites|%s' % (body.nkey, f), 'seek(Start) rewrites %s before returning Ok' % f if okw else
+                   'seek(Start) can return Ok without rewriting the position-dependent field %s: the next read continues from a stale state' % f, body.loc(tgt))
+        # the inner source is repositioned
+        inner_seek = [b for b in body.calls() if b.idx in arm_blocks and b.term.cmethod == 'seek' and b.term.ctrait == 'std::io::Seek' and cnorm(b.term) != norm(body.defpath)] + \
+                     [b for b in body.calls() if b.idx in arm_blocks and b.term.cmethod == 'sync_inner_with_uncompressed_pos']
+        oki = bool(inner_seek) and all(any(body.dominates(b.idx, obb) for b in inner_seek) or fast_path_ok(obb) for obb, _ in oks)
+        rep.ob(RULE, oki, RULE + '|%s|Start-repositions-inner' % body.nkey, 'the inner reader is repositioned in the same call' if oki else 'seek(Start) does not reposition the inner reader', body.loc(tgt))
+    # compression: the decompressor stored is created in the same call
+    cs = prog.body('mla', "<layers::compress::CompressionLayerReader<'_, R> as std::io::Seek>::seek")
+    if cs is None:
+        bs = find_bodies(prog, 'mla', adt='layers::compress::CompressionLayerReader', name='seek', trait='std::io::Seek')
+        cs = bs[0] if bs else None
+    if cs is not None:
+        st = [s for b in cs.blocks if not b.cleanup for s in b.stmts if s.kind == 'assign' and s.rv.r == 'aggregate' and s.rv.j.get('variant') == 'InData'
+              and s.rv.j.get('adt') == 'layers::compress::CompressionLayerReaderState']
+        ok = len(st) == 1
+        if ok:
+            dop = st[0].rv.ops[st[0].rv.j['fields'].index('decompressor')]
+            o = origins(cs, [dop.place[0]])
+            ok = any(cs.blocks[c].term.cmethod == 'new_decompressor_at' for c in o.calls)
+        rep.ob(RULE, ok, RULE + '|%s|fresh-decompressor' % cs.nkey, 'the state stored by seek(Start) holds a decompressor created in the same call' if ok else 'seek(Start) reuses a decompressor from before the seek', cs.loc())
+
 def run(prog, rep, tier):
     mla = prog.crates['mla']
     # ---------------- R10.1
@@ -194,157 +350,7 @@ def run(prog, rep, tier):
         ok = len(rw) == 1 and len(fr) == 1 and le.dominates(rw[0].idx, fr[0].idx)
         rep.ob('R10.1', ok, 'R10.1|mla::helpers::linear_extract|rewind-before-first-read', 'rewind dominates the block loop' if ok else 'linear_extract does not rewind before reading', le.loc())
 
-    # ---------------- R10.2 seek(Start) rewrites position state
-    def start_arm(body):
-        for sbb, si in arm_of_enum_switch(prog, body, adt='std::io::SeekFrom'):
-            t = enum_arm_target(si, 'Start')
-            if t is not None and si['place'][0] == 2:
-                return sbb, t, si
-        return None
-    for adt, spec in FROZEN_FIELDS.items():
-        a = prog.adt(adt, 'mla')
-        if a is None:
-            rep.ob('R10.2', False, 'R10.2|anchor|%s' % adt, 'struct not found')
-            continue
-        fields = {f['name'] for f in a['variants'][0]['fields']}
-        known = spec['position'] | set(spec['other'])
-        for f in sorted(fields - known):
-            rep.note('new field %s.%s: not classified as position-dependent or not (R10.2 field lists are frozen)' % (adt, f))
-        missing = known - fields
-        rep.ob('R10.2', not missing, 'R10.2|%s|field-list' % adt, 'field list matches (%s position-dependent)' % sorted(spec['position']) if not missing else 'fields %s no longer exist: re-review the list' % sorted(missing), '-')
-        body = one_body(prog, rep, 'R10.2', 'mla', adt=adt, name='seek', trait='std::io::Seek')
-        if body is None:
-            continue
-        from ..inline import inlined_body
-        if start_arm(body) is not None:
-            plain_arm = start_arm(body)
-            # the Start arm may delegate to a private method (`SeekFrom::Start(pos) => self.seek_from_start(pos)`): examine it with that method spliced in
-            arm_calls = [b for b in body.calls() if body.edge_dominates((plain_arm[0], plain_arm[1]), b.idx)]
-            if not any(s.kind == 'assign' and s.place == (0, ()) and s.rv.r == 'aggregate' and s.rv.j.get('variant') == 'Ok'
-                       for b in body.blocks if body.edge_dominates((plain_arm[0], plain_arm[1]), b.idx) for s in b.stmts):
-                body = inlined_body(prog, body, depth=1, skip=('load_in_cache', 'sync_inner_with_uncompressed_pos', 'new_decompressor_at'))
-        sa = start_arm(body)
-        if sa is None:
-            rep.ob('R10.2', False, 'R10.2|%s|start-arm' % body.nkey, 'no SeekFrom::Start arm found', body.loc())
-            continue
-        sbb, tgt, si = sa
-        arm_blocks = {b for b in body.reachable(tgt) if body.edge_dominates((sbb, tgt), b)}
-        # (after splicing a helper in, its result local is copied into _0)
-        ret_copies = {s.rv.ops[0].place[0] for b in body.blocks if b.idx in arm_blocks for s in b.stmts
-                      if s.kind == 'assign' and s.place == (0, ()) and s.rv.r == 'use' and s.rv.ops[0].place is not None and not s.rv.ops[0].place[1]}
-        oks = [(b.idx, i) for b in body.blocks if b.idx in arm_blocks and not b.cleanup for i, s in enumerate(b.stmts)
-               if s.kind == 'assign' and (s.place == (0, ()) or (not s.place[1] and s.place[0] in ret_copies)) and s.rv.r == 'aggregate' and s.rv.j.get('variant') == 'Ok']
-        rep.floor('R10.2.%s' % adt.rsplit('::', 1)[-1], len(oks), 1, 'Ok results of the Start arm')
-        written = collections.defaultdict(list)   # field -> blocks
-        # locals that are `self` (the parameter, copies and reborrows of it -- a spliced-in method has its own)
-        # greatest fixpoint over the locals of self's type: kept while every definition copies / reborrows another kept local
-        selfs = {1} | {l_ for l_ in body.defs if body.lty(l_) == body.lty(1)}
-        shrunk = True
-        while shrunk:
-            shrunk = False
-            for l_ in sorted(selfs - {1}):
-                for d_ in body.defs.get(l_, []):
-                    src_ = None
-                    if d_[2] == 'assign' and d_[3].place[1]:
-                        continue      # a store through the reference, not a redefinition of it
-                    if d_[2] == 'assign' and not d_[3].place[1]:
-                        rv_ = d_[3].rv
-                        if rv_.r == 'use' and rv_.ops[0].place is not None and not rv_.ops[0].place[1]:
-                            src_ = rv_.ops[0].place[0]
-                        elif rv_.r == 'ref' and rv_.place is not None and rv_.place[1] == (('deref',),):
-                            src_ = rv_.place[0]
-                    if src_ not in selfs:
-                        selfs.discard(l_)
-                        shrunk = True
-                        break
-        for b in body.blocks:
-            if b.idx not in arm_blocks or b.cleanup:
-                continue
-            for i, s in enumerate(b.stmts):
-                if s.kind == 'assign' and s.place[0] in selfs and place_fields(s.place):
-                    written[place_fields(s.place)[0]].append(b.idx)
-            t = b.term
-            if t.kind == 'call':
-                for a_, aty in zip(t.args, t.arg_tys):
-                    if a_.place is None or '&mut' not in aty:
-                        continue
-                    e = expr_of(body, a_)
-                    if e[0] == 'ref' and e[1][0] in selfs and place_fields(e[1]):
-                        written[place_fields(e[1])[0]].append(b.idx)
-                    elif a_.place[0] in selfs or (e[0] == 'ref' and e[1][0] in selfs and not place_fields(e[1])):
-                        # &mut self handed to a method: rewrites what that method assigns
-                        cands, _ = resolve_call(prog, body, t)
-                        for c in cands:
-                            for cb in c.blocks:
-                                for s2 in cb.stmts:
-                                    if s2.kind == 'assign' and s2.place[0] == 1 and place_fields(s2.place):
-                                        written[place_fields(s2.place)[0]].append(b.idx)
-                                if cb.term.kind == 'call':
-                                    for a3, aty3 in zip(cb.term.args, cb.term.arg_tys):
-                                        e3 = expr_of(c, a3) if a3.place is not None else ('?',)
-                                        if '&mut' in aty3 and e3[0] == 'ref' and e3[1][0] == 1 and place_fields(e3[1]):
-                                            written[place_fields(e3[1])[0]].append(b.idx)
-        def fast_path_ok(obb):
-            """an Ok result that skips the rewrite is tolerated only on a path that established (i) equality between a value computed from the
-            requested position and a position field of self, and (ii) a second test on another position field (validity of the cached state)"""
-            ident = False
-            valid = False
-            for (e, taken, d) in census.guards_on_path(prog, body, obb):
-                neg = False
-                while e[0] == 'not':
-                    e = e[1]
-                    neg = not neg
-                if e[0] != 'binop' or e[1] not in ('Eq', 'Ne') or d not in arm_blocks:
-                    continue
-                holds_eq = (e[1] == 'Eq') == (taken != neg)
-                sides = []
-                for x in (e[2], e[3]):
-                    fl = None
-                    while x[0] == 'cast':
-                        x = x[1]
-                    if x[0] == 'place' and x[1][0] == 1 and place_fields(x[1]):
-                        fl = place_fields(x[1])[0]
-                    elif x[0] == 'call' and x[2].args and x[2].args[0].place is not None:
-                        oo = origins(body, [x[2].args[0].place[0]], through_calls=True)
-                        fs = [ff[1] for ff in oo.fields if ff[0] == 'self' and len(ff) > 1]
-                        fl = fs[0] if fs else None
-                    sides.append(fl)
-                fields_here = [x for x in sides if x in spec['position']]
-                if not fields_here:
-                    continue
-                def _uc(x):
-                    while x[0] == 'cast':
-                        x = x[1]
-                    return x
-                other = [_uc(x) for x, fl in zip((e[2], e[3]), sides) if fl not in spec['position']]
-                if holds_eq and other and other[0][0] != 'const':
-                    ident = ident or fields_here[0]
-                elif (not holds_eq) and other and other[0][0] == 'const':
-                    valid = valid or fields_here[0]
-            return bool(ident) and bool(valid) and ident != valid
-        for f in sorted(spec['position']):
-            okw = all(any(body.dominates(wb, obb) for wb in written.get(f, [])) or fast_path_ok(obb) for obb, _ in oks) and bool(oks)
-            rep.ob('R10.2', okw, 'R10.2|%s|Start-rewrites|%s' % (body.nkey, f), 'seek(Start) rewrites %s before returning Ok' % f if okw else
-                   'seek(Start) can return Ok without rewriting the position-dependent field %s: the next read continues from a stale state' % f, body.loc(tgt))
-        # the inner source is repositioned
-        inner_seek = [b for b in body.calls() if b.idx in arm_blocks and b.term.cmethod == 'seek' and b.term.ctrait == 'std::io::Seek' and cnorm(b.term) != norm(body.defpath)] + \
-                     [b for b in body.calls() if b.idx in arm_blocks and b.term.cmethod == 'sync_inner_with_uncompressed_pos']
-        oki = bool(inner_seek) and all(any(body.dominates(b.idx, obb) for b in inner_seek) or fast_path_ok(obb) for obb, _ in oks)
-        rep.ob('R10.2', oki, 'R10.2|%s|Start-repositions-inner' % body.nkey, 'the inner reader is repositioned in the same call' if oki else 'seek(Start) does not reposition the inner reader', body.loc(tgt))
-    # compression: the decompressor stored is created in the same call
-    cs = prog.body('mla', "<layers::compress::CompressionLayerReader<'_, R> as std::io::Seek>::seek")
-    if cs is None:
-        bs = find_bodies(prog, 'mla', adt='layers::compress::CompressionLayerReader', name='seek', trait='std::io::Seek')
-        cs = bs[0] if bs else None
-    if cs is not None:
-        st = [s for b in cs.blocks if not b.cleanup for s in b.stmts if s.kind == 'assign' and s.rv.r == 'aggregate' and s.rv.j.get('variant') == 'InData'
-              and s.rv.j.get('adt') == 'layers::compress::CompressionLayerReaderState']
-        ok = len(st) == 1
-        if ok:
-            dop = st[0].rv.ops[st[0].rv.j['fields'].index('decompressor')]
-            o = origins(cs, [dop.place[0]])
-            ok = any(cs.blocks[c].term.cmethod == 'new_decompressor_at' for c in o.calls)
-        rep.ob('R10.2', ok, 'R10.2|%s|fresh-decompressor' % cs.nkey, 'the state stored by seek(Start) holds a decompressor created in the same call' if ok else 'seek(Start) reuses a decompressor from before the seek', cs.loc())
+    r10_2(prog, rep, 'R10.2')
     r10_4(prog, rep)
     r10_5(prog, rep)
 
